@@ -127,6 +127,11 @@ class Encoder:
                 g = z3.BoolVal(False)
             elif isinstance(s, ast.Assign) and self.restore and len(s.targets) == 1 and isinstance(s.targets[0], ast.Name) and self.restore[1](s.value):
                 self.saved[s.targets[0].id] = d[self.restore[0]]
+            elif self.restore and self.is_del_restore(s):
+                # `del stack[X:]` with X = the saved length: same effect as `while len(stack) > X: stack.pop()`
+                sv = self.saved[s.targets[0].slice.lower.id]
+                d = dict(d)
+                d[self.restore[0]] = z3.If(d[self.restore[0]] > sv, sv, d[self.restore[0]])
             elif hasattr(ast, "Match") and isinstance(s, ast.Match):
                 self.notes.append(f"match statement at {s.lineno} not modelled")
                 d = self.stmt_delta(s, d)
@@ -154,6 +159,17 @@ class Encoder:
             sub["exc"] = None
             g, d = self.block(fins[i], g, d, sub)
         return g, d
+
+    def is_del_restore(self, s) -> bool:
+        if not (isinstance(s, ast.Delete) and len(s.targets) == 1 and isinstance(s.targets[0], ast.Subscript)):
+            return False
+        t = s.targets[0]
+        sl = t.slice
+        if not (isinstance(sl, ast.Slice) and sl.upper is None and sl.step is None and isinstance(sl.lower, ast.Name) and sl.lower.id in self.saved):
+            return False
+        # the subscripted object must be the stack the len() of which was saved: is_len(len(<obj>))
+        probe = ast.Call(func=ast.Name(id="len", ctx=ast.Load()), args=[t.value], keywords=[])
+        return bool(self.restore[1](probe))
 
     def loop(self, s, g, d, ctx):
         # restore pattern: while len(stack) > X: stack.pop()
